@@ -118,6 +118,14 @@ contract(
                 # every node that was added is the copy of a template node (named explicitly: the (m - off - 1)-th one)
                 "forall_int(lambda m: implies(has_node(source_graph, m) and not old(has_node(source_graph, m)), "
                 "has_node(target_graph, nodes(target_graph)[m - " + _OFF + " - 1]) and result[nodes(target_graph)[m - " + _OFF + " - 1]] == m))",
+                # ... so a template neighbour of the original of a copy gives a (different) neighbour of the copy
+                "forall_int(lambda m, k: implies(has_node(source_graph, m) and not old(has_node(source_graph, m)) and "
+                "has_edge(target_graph, nodes(target_graph)[m - " + _OFF + " - 1], k) and k != nodes(target_graph)[m - " + _OFF + " - 1], "
+                "has_edge(source_graph, m, result[k]) and result[k] != m and has_node(source_graph, result[k])))",
+                # every old key is at most the offset, so bonds of old nodes are exactly as before
+                "forall_int(lambda u, v: implies(old(has_node(source_graph, u)) or old(has_node(source_graph, v)), edge_unchanged(source_graph, u, v)))",
+                # template bonds are copied (addressed by template node)
+                "forall_int(lambda a, b: implies(has_edge(target_graph, a, b) and a != b, has_edge(source_graph, result[a], result[b])))",
                 ]),
     modifies=["source_graph"],
     loops={
@@ -128,7 +136,9 @@ contract(
         1: Loop(over='target_graph.edges', modifies=["source_graph:edges,eattrs"],
                 invariant=(["forall_int(lambda n: implies(has_node(target_graph, n), n in correspondence and "
                             "correspondence[n] == offset + 1 + node_index(target_graph, n)))"]
-                           + _edge_facts("_i1", "offset")),
+                           + _edge_facts("_i1", "offset")
+                           + ["forall_int(lambda a, b: implies(has_edge(target_graph, a, b) and a != b and edge_index(target_graph, a, b) < _i1, "
+                              "has_edge(source_graph, correspondence[a], correspondence[b])))"]),
                 lemmas=["correspondence[node1] == offset + 1 + node_index(target_graph, node1)",
                         "correspondence[node2] == offset + 1 + node_index(target_graph, node2)",
                         "nodes(target_graph)[node_index(target_graph, node1)] == node1",
@@ -197,4 +207,102 @@ contract(
     },
     wf_all_graphs=True,
     examples=_ex_names,
+)
+
+
+# ---------------------------------------------------------------------------------------------- annotate_fragments
+# The per-node fragment graphs of the coarse graph are rebuilt from the membership lists of the fine graph (C02):
+# atom n is in the fragment graph of coarse node k  <=>  k is in n's membership list; bonds are the fine graph's bonds
+# between two atoms of the fragment.  (itertools.combinations assumed.)
+_AFG = "attr(meta_graph, k, 'graph')"
+_AF_ATTRS = ('fragid', 'fragname', 'atomname', 'element', 'bonding', 'weight', 'charge', 'hcount', 'mapping', 'aromatic')
+_AF_SOUND = ("all(has_node(molecule, n) and has_attr(molecule, n, 'fragid') and member(f, attr(molecule, n, 'fragid')) "
+             "for f in keys(fragid_to_node) for n in fragid_to_node[f])")
+_AF_COMPLETE = ("all(all(f in fragid_to_node and member(n, fragid_to_node[f]) for f in attr(molecule, n, 'fragid')) "
+                "for n in nodes(molecule) if has_attr(molecule, n, 'fragid'){extra})")
+
+
+def _af_nodes(g, k):
+    """Every node of fragment graph g is a fine node that lists k, with the fine node's attributes."""
+    return ("all(has_node(molecule, n) and has_attr(molecule, n, 'fragid') and member(%s, attr(molecule, n, 'fragid')) and "
+            % k + " and ".join("same_attr(%s, n, molecule, n, '%s')" % (g, a) for a in _AF_ATTRS) + " for n in nodes(%s))" % g)
+
+
+def _af_edges(g):
+    return "all(has_edge(molecule, e[0], e[1]) for e in edge_list(%s))" % g
+
+
+def _af_done(cond):
+    pre = "all("
+    post = " for k in nodes(meta_graph) if " + cond + ")"
+    return [
+        pre + "has_attr(meta_graph, k, 'graph') and fresh_graph(" + _AFG + ") and " + _AFG + " != molecule and " + _AFG + " != meta_graph" + post,
+        pre + _af_nodes(_AFG, 'k') + post,
+        pre + _af_edges(_AFG) + post,
+        # completeness: every atom that lists k is in k's graph; every fine bond between two of them is in it
+        pre + "all(has_node(" + _AFG + ", x) for x in fragid_to_node[k])" + post,
+        pre + "all(implies(has_node(" + _AFG + ", e[0]) and has_node(" + _AFG + ", e[1]) and e[0] != e[1], has_edge(" + _AFG + ", e[0], e[1])) "
+        "for e in edge_list(molecule))" + post,
+    ]
+
+
+def _ex_annotate():
+    import logging
+    logging.getLogger('pysmiles').setLevel(logging.ERROR)
+    from cgsmiles.resolve import MoleculeResolver
+    for s in ["{[#A][#B]}.{#A=CC[$],#B=[$]O}", "{[#V].[#A][#B]}.{#A=CC[$],#B=[$]O}", "{[#A]|3}.{#A=[$]CC[$]}",
+              "{[#A][#B]}.{#A=CC[!],#B=[!]CO}", "{[#A]}.{#A=c1ccccc1}", "{[#A][#B]}.{#A=[#a][#b][$],#B=[$][#c]}",
+              "{[#A]1[#B][#C]1}.{#A=[$]CC[!],#B=[$]CC[!],#C=[!][!]CN}"]:
+        coarse, fine = MoleculeResolver.from_string(s, last_all_atom=('#a' not in s)).resolve()
+        for k in coarse.nodes:
+            coarse.nodes[k].pop('graph', None)
+        yield {'meta_graph': coarse, 'molecule': fine}
+
+
+contract(
+    target='cgsmiles.graph_utils:annotate_fragments', serves=['C02', 'C06', 'C12'],
+    types={'meta_graph': 'Graph:mol', 'molecule': 'Graph:mol'}, returns='Graph:mol',
+    locals={'fragid_to_node': 'DefaultDict[Int,List[Int]]', 'node_to_fragids': 'Dict[Int,List[Int]]', 'combinations': 'List[Tuple[Int,Int]]'},
+    requires=["meta_graph != molecule"],
+    ensures=[
+        "result == meta_graph",
+        # fragment graph of k: exactly the atoms that list k (=>), with the fine graph's attributes; bonds are fine-graph bonds
+        "all(has_attr(meta_graph, k, 'graph') and " + _af_nodes(_AFG, 'k') + " and " + _af_edges(_AFG) + " for k in nodes(meta_graph))",
+        # (<=) every atom that lists k is in k's fragment graph
+        "all(all(implies(has_node(meta_graph, k), has_node(" + _AFG + ", n)) for k in attr(molecule, n, 'fragid')) "
+        "for n in nodes(molecule) if has_attr(molecule, n, 'fragid'))",
+        # every fine bond between two different atoms of a fragment is a bond of the fragment graph
+        "all(all(implies(has_node(" + _AFG + ", e[0]) and has_node(" + _AFG + ", e[1]) and e[0] != e[1], has_edge(" + _AFG + ", e[0], e[1])) "
+        "for e in edge_list(molecule)) for k in nodes(meta_graph))",
+        # the fine graph is only read
+        "forall_int(lambda n: node_unchanged(molecule, n))",
+    ],
+    modifies=["meta_graph:attr:graph"], allocates=True, wf_all_graphs=True,
+    loops={
+        0: Loop(over='node_to_fragids.items()', invariant=[
+            _AF_SOUND, _AF_COMPLETE.format(extra=' and key_index(node_to_fragids, n) < _i0')]),
+        1: Loop(over='fragids', invariant=[
+            _AF_SOUND, _AF_COMPLETE.format(extra=' and key_index(node_to_fragids, n) < _i0'),
+            "all(attr(molecule, node, 'fragid')[j] in fragid_to_node and "
+            "member(node, fragid_to_node[attr(molecule, node, 'fragid')[j]]) for j in range(_i1))"]),
+        2: Loop(over='meta_graph.nodes', modifies=["meta_graph:attr:graph"], invariant=[
+            _AF_SOUND, _AF_COMPLETE.format(extra='')] + _af_done("node_index(meta_graph, k) < _i2")),
+        3: Loop(over='fragid_to_node[meta_node]', modifies=["graph_frag"], invariant=[
+            "fresh_graph(graph_frag) and graph_frag != molecule and graph_frag != meta_graph",
+            _AF_SOUND, _AF_COMPLETE.format(extra='')] + _af_done("node_index(meta_graph, k) < _i2") + [
+            "all(" + _AFG + " != graph_frag for k in nodes(meta_graph) if node_index(meta_graph, k) < _i2)",
+            _af_nodes("graph_frag", "meta_node"),
+            "all(has_node(graph_frag, fragid_to_node[meta_node][i]) for i in range(_i3))",
+            "forall_int(lambda n: implies(has_node(graph_frag, n), any(fragid_to_node[meta_node][i] == n for i in range(_i3))))",
+            "n_edges(graph_frag) == 0",
+        ]),
+        4: Loop(over='combinations', modifies=["graph_frag:edges,eattrs"], invariant=[
+            _af_edges("graph_frag"),
+            "forall_int(lambda i, j: implies(0 <= i and i < j and j < len(fragid_to_node[meta_node]) and "
+            "comb_pos(combinations, fragid_to_node[meta_node], i, j) < _i4 and "
+            "has_edge(molecule, fragid_to_node[meta_node][i], fragid_to_node[meta_node][j]), "
+            "has_edge(graph_frag, fragid_to_node[meta_node][i], fragid_to_node[meta_node][j])))",
+        ]),
+    },
+    examples=_ex_annotate,
 )
